@@ -180,6 +180,18 @@ MUTANTS = {
                 return result""")]),
     "script-hook-ignores-active": (["C15"], [(I, """            if (self.isActivePrintJob and self.state.excluding):""", """            if (self.state.excluding):""")]),
     "g28-keeps-offset": (["C03"], [(AX, "        self.current = 0\n        self.offset = 0", "        self.current = 0")]),
+    # ---- registration with OctoPrint (the harness goes through __plugin_load__ / __plugin_hooks__ and OctoPrint's calling convention)
+    "at-hook-not-registered": (["C14"], [(I, """        "octoprint.comm.protocol.atcommand.queuing":
+            __plugin_implementation__.handleAtCommandQueuing,
+""", "")]),
+    "script-hook-not-registered": (["C15", "C06"], [(I, """        "octoprint.comm.protocol.scripts":
+            (__plugin_implementation__.handleScriptHook, 0),
+""", "")]),
+    "gcode-hook-registered-for-sending-phase": (["C01", "C03", "C06", "C15"], [(I, """        "octoprint.comm.protocol.gcode.queuing": __plugin_implementation__.handleGcodeQueuing""",
+                                                             """        "octoprint.comm.protocol.gcode.sending": __plugin_implementation__.handleGcodeQueuing""")]),
+    "gcode-hook-subcode-renamed": (["C01", "C06", "C15"], [(I, "self, commInstance, phase, cmd, cmdType, gcode, subcode=None, tags=None",
+                                                   "self, commInstance, phase, cmd, cmdType, gcode, subCode=None, tags=None")]),
+    "not-an-event-handler": (["C11", "C13"], [(I, "        octoprint.plugin.EventHandlerPlugin\n", "        object\n")]),
 }
 
 
